@@ -160,17 +160,30 @@ func (s *ScaleRef) UnmapTol(y, x float64) float64 {
 	return 8*Eps*(1+math.Abs(y))*s.lsum(x)*math.Abs(x) + 2*math.SmallestNonzeroFloat64
 }
 
-// MapTol is the absolute tolerance on Map(x) whose true value is y: the
-// Unmap tolerance carried back through the slope of the map, plus 4 eps |y|.
+// MapTol is the absolute tolerance on Map(x) whose true value is y.
 //
-// Log: 8 eps (1+|y|)(1+|ln|x||+|ln|Min||+|ln|Max||)/|W| + 4 eps |y|, written
+// Linear: 8 eps |y| + 4 eps |1-y| (+ a subnormal floor). Map is the quotient
+// (x-Min)/(Max-Min) of two differences of the INPUTS: fl(x-Min) and
+// fl(Max-Min) are single correctly rounded (often exact) subtractions, so the
+// stated affine map is obtainable to a few units of roundoff RELATIVE to y on
+// every domain, however far from zero it lies compared with its width:
+// the direct quotient errs by <= 1.5 eps |y|, the reciprocal-multiply form
+// (x-Min)*(1/(Max-Min)) by <= 2 eps |y|, the lerp form 1-(Max-x)/(Max-Min)
+// (and its reciprocal variant) by <= 2 eps |1-y| + eps |y|/2. The margin is at
+// least 2 for each. (The conditioning of Unmap - cancellation against
+// max(|Min|,|Max|) - does not enter Map: a tolerance carried back from Unmap
+// would hide a slope/intercept evaluation x*k - Min*k, whose error
+// eps |x| / |Max-Min| destroys strict monotonicity on domains far from 0.)
+//
+// Log: the Unmap tolerance carried back through the slope of the map, plus
+// 4 eps |y|: 8 eps (1+|y|)(1+|ln|x||+|ln|Min||+|ln|Max||)/|W| + 4 eps |y|, written
 // without the factor |x|/|x| so that it stays finite and non-zero for x near
 // the largest finite and down to the subnormal numbers.
 func (s *ScaleRef) MapTol(x, y float64) float64 {
 	if s.IsLog {
 		return 8*Eps*(1+math.Abs(y))*s.lsum(x)/math.Abs(s.W) + 4*Eps*math.Abs(y)
 	}
-	return s.UnmapTol(y, x)*s.DMap(x) + 4*Eps*math.Abs(y)
+	return 8*Eps*math.Abs(y) + 4*Eps*math.Abs(1-y) + 4*math.SmallestNonzeroFloat64
 }
 
 // Separated says that the logarithms of |Min| and |Max| are at least 3 ulps
